@@ -985,6 +985,12 @@ def gen_stmt(rng, tier):
     base = gen_sel(rng, min(depth, 1), ncols=n, tier=tier)
     ops = [[rng.choice(list(SETOPS)), gen_sel(rng, 0, ncols=n, tier=tier)] for _ in range(rng.choice([1, 1, 2]))]
     ordby = [[rng.choice([g.field(), ga.value()]), rng.choice([None, True, False])] for _ in range(rng.choice([0, 0, 1]))]
+    if rng.random() < 0.35:
+        # ordered by a select EXPRESSION of the base query itself: aliased (the ORDER BY then only names the alias: nothing
+        # may be collected for it) or not (rendered, and collected, again)
+        x = ["arith", rng.choice(["add", "mul", "sub"]), g.field(), g.value(), rng.choice(["x", "x", "my alias", None])]
+        base["cols"][0] = x
+        ordby = [[x, rng.choice([None, True, False])]] + ordby[:1]
     return ["setop", rng.random() < 0.6, base, ops, ordby, rng.choice([None, None, 5]), rng.choice([None, None, 0, 1])]
 
 
@@ -1048,6 +1054,15 @@ def gen_shared(rng, tier):
     g = PGen(rng, allowed=[], p_alias=0.0, p_table=0.0, hostile=0.2, p_none=0.0)
     r = rng.random()
     d = rng.choice([1, 2])
+    if r < 0.12:
+        # a set operation ordered by the (aliased) select expression OBJECT of its base query
+        x = ["arith", rng.choice(["add", "mul"]), g.field(), g.value(), rng.choice(["x", "n", None])]
+        y = ["case", [[["basic", "gt", g.field(), g.value(), None], g.value()]], g.value(), rng.choice(["k", None])]
+        a = gen_sel(rng, 0, ncols=2, tier=tier)
+        b = gen_sel(rng, 0, ncols=2, tier=tier)
+        a["cols"] = [x, y]
+        ordby = rng.choice([[[x, True]], [[y, None]], [[x, False], [y, True]], [[y, None], [x, None]]])
+        return ["setop", rng.random() < 0.5, a, [[rng.choice(["UNION", "UNION ALL"]), b]], ordby, rng.choice([None, 5]), None]
     if r < 0.35:
         # the same query object as several set-operation operands: a+b+b, a+a, a+b+a
         a = gen_sel(rng, 0, ncols=1, tier=tier)
@@ -1309,6 +1324,17 @@ def corpus():
             # an explicit name that is also the collector's next automatic name: the later assignment overwrites the earlier
             out.append({"kind": "term", "c": sc, "sty": sty,
                         "t": ["cplx", "and", ["basic", "eq", F("a"), ["pvw", "param2", Sv("x")], None], ["basic", "eq", F("b"), I(5), None], None]})
+        # a set operation (and a plain SELECT) ordered by the aliased select expression object itself: ORDER BY names the alias,
+        # the literal inside the expression is collected once (for the select list), not again for ORDER BY
+        xo = ["arith", "add", F("a"), I(10), "x"]
+        for shr in (True, False):
+            out.append({"kind": "stmt", "dialect": "sqlite", "sty": sty, "share": shr,
+                        "s": ["setop", False, _sel([xo], where=["t", ["basic", "eq", F("b"), I(1), None]]),
+                              [["UNION ALL", _sel([F("a")], frm="u", where=["t", ["basic", "eq", F("b"), I(2), None]])]],
+                              [[xo, True]], 5, None]})
+            out.append({"kind": "stmt", "dialect": "generic", "sty": sty, "share": shr,
+                        "s": ["select", _sel([xo, F("b")], where=["t", ["basic", "gt", F("c"), I(3), None]], orderby=[[xo, False]],
+                                             groupby=[xo])]})
         # vendor clauses: two clauses with constants in one statement (evaluation order must be text order)
         out.append({"kind": "vendor", "cls": "PostgreSQLQuery", "stmt": "insert", "base": "values", "sty": sty,
                     "features": ["on_conflict_update", "returning"]})
@@ -1600,9 +1626,9 @@ FEATURES = {
 LAST = ("union",)
 BASES = {
     SEL: ["plain", "with", "temporal", "subquery_from"],
-    INS: ["values", "replace", "insert_select", "or_replace"],
-    UPD: ["plain"],
-    DEL: ["plain"],
+    INS: ["values", "replace", "insert_select", "or_replace", "with"],
+    UPD: ["plain", "with"],
+    DEL: ["plain", "with"],
 }
 # renderers that no DML statement reaches, with the reason (anything else that is not exercised fails the check)
 EXEMPT_RENDERERS = {
@@ -1625,6 +1651,15 @@ def vendor_base(cls, kind, base, V):
     from pypika import SYSTEM_TIME
     Q = qclass(cls)
     t, u = _tbl()
+    if kind != SEL and base == "with":
+        # a WITH query (holding a literal) in front of INSERT / UPDATE / DELETE
+        sub = Q.from_(u).select(u.a, u.b).where(u.c == V())
+        w = Q.with_(sub, "w")
+        if kind == INS:
+            return w.into(t).columns("a", "b", "c").insert(V("i"), V(), V())
+        if kind == UPD:
+            return w.update(t).set("a", V())
+        return w.from_(t).delete()
     if kind == SEL:
         if base == "with":
             sub = Q.from_(u).select(u.a, u.b).where(u.c == V())
